@@ -104,13 +104,41 @@ enum Op {
     RwLock(usize, bool),
     RwTry(usize, bool),
     RwUnlock(usize),
+    CvWait(usize, usize),
+    CvNotify(usize, bool),
+    Send(usize, usize, u64, bool),
+    Recv(usize, bool),
+    DropTx(usize, usize),
+    DropRx(usize),
+    Barrier(usize),
+    CallOnce(usize, usize),
+    IsCompleted(usize),
 }
+
+enum Tx {
+    U(shuttle::sync::mpsc::Sender<u64>),
+    B(shuttle::sync::mpsc::SyncSender<u64>),
+}
+
+/// Endpoints of one channel.  The whole harness runs on one OS thread; endpoints are reached through an
+/// UnsafeCell because several tasks may be blocked inside calls on the same endpoint.
+struct ChanObj {
+    txs: std::cell::UnsafeCell<Vec<Option<Tx>>>,
+    rx: std::cell::UnsafeCell<Option<shuttle::sync::mpsc::Receiver<u64>>>,
+}
+unsafe impl Sync for ChanObj {}
+unsafe impl Send for ChanObj {}
 
 enum Obj {
     Atomic(AtomicU64),
     Sem(BatchSemaphore),
     Mutex(shuttle::sync::Mutex<()>),
     RwLock(shuttle::sync::RwLock<()>),
+    Condvar(shuttle::sync::Condvar),
+    Chan(ChanObj),
+    Barrier(shuttle::sync::Barrier),
+    Once(shuttle::sync::Once),
+    Placeholder,
 }
 
 enum Guard<'a> {
@@ -163,6 +191,29 @@ fn parse_op(w: &str) -> Op {
         "tr" => Op::RwTry(num(2), false),
         "tw" => Op::RwTry(num(2), true),
         "ru" => Op::RwUnlock(num(2)),
+        "cw" => {
+            let parts: Vec<&str> = w[2..].split('.').collect();
+            Op::CvWait(parts[0].parse().unwrap(), parts[1].parse().unwrap())
+        }
+        "cn" => Op::CvNotify(num(2), false),
+        "ca" => Op::CvNotify(num(2), true),
+        "sd" | "ts" => {
+            let parts: Vec<&str> = w[2..].split('.').collect();
+            Op::Send(parts[0].parse().unwrap(), parts[1].parse().unwrap(), parts[2].parse().unwrap(), &w[..2] == "sd")
+        }
+        "rc" => Op::Recv(num(2), true),
+        "tc" => Op::Recv(num(2), false),
+        "dt" => {
+            let parts: Vec<&str> = w[2..].split('.').collect();
+            Op::DropTx(parts[0].parse().unwrap(), parts[1].parse().unwrap())
+        }
+        "dr" => Op::DropRx(num(2)),
+        "bw" => Op::Barrier(num(2)),
+        "co" => {
+            let parts: Vec<&str> = w[2..].split('.').collect();
+            Op::CallOnce(parts[0].parse().unwrap(), parts[1].parse().unwrap())
+        }
+        "ic" => Op::IsCompleted(num(2)),
         _ if w.starts_with('a') => {
             let parts: Vec<&str> = w.split('.').collect();
             let a = parts[0][1..].parse::<usize>().unwrap();
@@ -195,6 +246,23 @@ fn make_objs(specs: &[String]) -> Vec<Obj> {
             b'a' => Obj::Atomic(AtomicU64::new(w[1..].parse::<u64>().unwrap())),
             b'm' => Obj::Mutex(shuttle::sync::Mutex::new(())),
             b'w' => Obj::RwLock(shuttle::sync::RwLock::new(())),
+            b'v' => Obj::Condvar(shuttle::sync::Condvar::new()),
+            b'c' => {
+                let (txs, rx) = if &w[1..] == "u" {
+                    let (tx, rx) = shuttle::sync::mpsc::channel::<u64>();
+                    (vec![Some(Tx::U(tx.clone())), Some(Tx::U(tx.clone())), Some(Tx::U(tx))], rx)
+                } else {
+                    let (tx, rx) = shuttle::sync::mpsc::sync_channel::<u64>(w[1..].parse().unwrap());
+                    (vec![Some(Tx::B(tx.clone())), Some(Tx::B(tx.clone())), Some(Tx::B(tx))], rx)
+                };
+                Obj::Chan(ChanObj {
+                    txs: std::cell::UnsafeCell::new(txs),
+                    rx: std::cell::UnsafeCell::new(Some(rx)),
+                })
+            }
+            b'e' => Obj::Placeholder,
+            b'b' => Obj::Barrier(shuttle::sync::Barrier::new(w[1..].parse().unwrap())),
+            b'o' => Obj::Once(shuttle::sync::Once::new()),
             b's' => {
                 let parts: Vec<&str> = w[1..].split(':').collect();
                 let fair = if parts[1] == "f" { Fairness::StrictlyFair } else { Fairness::Unfair };
@@ -229,8 +297,25 @@ fn lock_code<G, P>(r: Result<G, std::sync::PoisonError<P>>, unwrap: impl FnOnce(
 }
 
 fn run_body(p: Arc<Prog>, objs: Arc<Vec<Obj>>, b: usize) {
+    run_ops(p, objs, b, true)
+}
+
+fn run_ops(p: Arc<Prog>, objs: Arc<Vec<Obj>>, b: usize, is_thread: bool) {
     let objs_ref: &Vec<Obj> = &objs;
-    let mut guards: Vec<Guard<'_>> = Vec::new();
+    if !is_thread {
+        log_op(30, &[]);
+    }
+    // guards are always released newest first, also when the body unwinds
+    struct Guards<'a>(Vec<Guard<'a>>);
+    impl Drop for Guards<'_> {
+        fn drop(&mut self) {
+            while let Some(g) = self.0.pop() {
+                drop(g);
+            }
+        }
+    }
+    let mut guards_holder = Guards(Vec::new());
+    let guards = &mut guards_holder.0;
     let mut handles: Vec<Option<thread::JoinHandle<()>>> = Vec::new();
     let mut threads: Vec<thread::Thread> = Vec::new();
     let ops = p.bodies.get(b).cloned().unwrap_or_default();
@@ -308,6 +393,98 @@ fn run_body(p: Arc<Prog>, objs: Arc<Vec<Obj>>, b: usize) {
             Op::Panic => {
                 panic!("vpanic");
             }
+            Op::CvWait(cv, m) => {
+                let Obj::Condvar(c) = &objs_ref[cv] else { panic!("vharness: not a condvar") };
+                let idx = guards
+                    .iter()
+                    .rposition(|g| g.obj() == m && matches!(g, Guard::M(..)))
+                    .expect("vharness: no guard");
+                let Guard::M(_, g) = guards.remove(idx) else { unreachable!() };
+                let (code, g) = lock_code(c.wait(g), |g| g);
+                guards.push(Guard::M(m, g));
+                log_op(21, &[code]);
+            }
+            Op::CvNotify(cv, all) => {
+                let Obj::Condvar(c) = &objs_ref[cv] else { panic!("vharness: not a condvar") };
+                if all {
+                    c.notify_all();
+                } else {
+                    c.notify_one();
+                }
+                log_op(22, &[all as u64]);
+            }
+            Op::Send(ch, slot, v, blocking) => {
+                let Obj::Chan(c) = &objs_ref[ch] else { panic!("vharness: not a channel") };
+                // SAFETY: single OS thread; the generator never drops an endpoint another task is blocked on
+                let txs = unsafe { &*c.txs.get() };
+                let tx = txs.get(slot).and_then(|t| t.as_ref()).expect("vharness: endpoint dropped");
+                let code = match tx {
+                    Tx::U(t) => match t.send(v) {
+                        Ok(()) => 0,
+                        Err(_) => 2,
+                    },
+                    Tx::B(t) => {
+                        if blocking {
+                            match t.send(v) {
+                                Ok(()) => 0,
+                                Err(_) => 2,
+                            }
+                        } else {
+                            match t.try_send(v) {
+                                Ok(()) => 0,
+                                Err(shuttle::sync::mpsc::TrySendError::Full(_)) => 1,
+                                Err(shuttle::sync::mpsc::TrySendError::Disconnected(_)) => 2,
+                            }
+                        }
+                    }
+                };
+                log_op(23, &[code]);
+            }
+            Op::Recv(ch, blocking) => {
+                let Obj::Chan(c) = &objs_ref[ch] else { panic!("vharness: not a channel") };
+                let rx = unsafe { &*c.rx.get() }.as_ref().expect("vharness: endpoint dropped");
+                if blocking {
+                    match rx.recv() {
+                        Ok(v) => log_op(24, &[0, v]),
+                        Err(_) => log_op(24, &[2]),
+                    }
+                } else {
+                    match rx.try_recv() {
+                        Ok(v) => log_op(24, &[0, v]),
+                        Err(shuttle::sync::mpsc::TryRecvError::Empty) => log_op(24, &[1]),
+                        Err(shuttle::sync::mpsc::TryRecvError::Disconnected) => log_op(24, &[2]),
+                    }
+                }
+            }
+            Op::DropTx(ch, slot) => {
+                let Obj::Chan(c) = &objs_ref[ch] else { panic!("vharness: not a channel") };
+                let txs = unsafe { &mut *c.txs.get() };
+                let tx = txs.get_mut(slot).and_then(|t| t.take()).expect("vharness: endpoint dropped");
+                drop(tx);
+                log_op(25, &[]);
+            }
+            Op::DropRx(ch) => {
+                let Obj::Chan(c) = &objs_ref[ch] else { panic!("vharness: not a channel") };
+                let rx = unsafe { &mut *c.rx.get() }.take().expect("vharness: endpoint dropped");
+                drop(rx);
+                log_op(26, &[]);
+            }
+            Op::Barrier(b) => {
+                let Obj::Barrier(bar) = &objs_ref[b] else { panic!("vharness: not a barrier") };
+                let r = bar.wait();
+                log_op(27, &[r.is_leader() as u64]);
+            }
+            Op::CallOnce(o, j) => {
+                let Obj::Once(once) = &objs_ref[o] else { panic!("vharness: not a once") };
+                let (p2, o2) = (p.clone(), objs.clone());
+                once.call_once(move || run_ops(p2, o2, j, false));
+                log_op(28, &[]);
+            }
+            Op::IsCompleted(o) => {
+                let Obj::Once(once) = &objs_ref[o] else { panic!("vharness: not a once") };
+                let r = once.is_completed();
+                log_op(29, &[r as u64]);
+            }
             Op::SemAcq(o, n) => {
                 let Obj::Sem(sm) = &objs_ref[o] else { panic!("vharness: not a semaphore") };
                 let r = sm.acquire_blocking(n);
@@ -367,9 +544,9 @@ fn run_body(p: Arc<Prog>, objs: Arc<Vec<Obj>>, b: usize) {
                 let w = matches!(g, Guard::W(..)) as u64;
                 drop(g);
                 if is_rw {
-                    log_op(20, &[w]);
+                    log_op(20, &[w, o as u64]);
                 } else {
-                    log_op(17, &[]);
+                    log_op(17, &[o as u64]);
                 }
             }
             Op::RwLock(o, write) => {
@@ -416,10 +593,25 @@ fn run_body(p: Arc<Prog>, objs: Arc<Vec<Obj>>, b: usize) {
             }
         }
     }
-    log_op(9, &[]);
+    if is_thread {
+        log_op(9, &[]);
+    }
     // guards still held are dropped newest first, before the thread's epilogue
     while let Some(g) = guards.pop() {
-        drop(g);
+        match g {
+            Guard::M(o, _) => {
+                drop(g);
+                log_op(17, &[o as u64]);
+            }
+            Guard::R(o, _) => {
+                drop(g);
+                log_op(20, &[0, o as u64]);
+            }
+            Guard::W(o, _) => {
+                drop(g);
+                log_op(20, &[1, o as u64]);
+            }
+        }
     }
 }
 
@@ -558,9 +750,185 @@ pub fn run_dfs(words: &[&str]) -> String {
     format!("N={} {}", if n == usize::MAX { "fail".to_string() } else { n.to_string() }, iters)
 }
 
+/// A transparent wrapper that logs every decision and draw and snapshots each finished execution.
+struct Rec<S: Scheduler> {
+    inner: S,
+    started: bool,
+}
+
+thread_local! {
+    static ITER_DATA: RefCell<Vec<(String, Schedule)>> = const { RefCell::new(Vec::new()) };
+}
+
+fn snapshot_iteration() {
+    let sch = CurrentSchedule::get_schedule();
+    let log = LOG.with(|l| {
+        let s = l.borrow().join(" ");
+        l.borrow_mut().clear();
+        s
+    });
+    ITER_DATA.with(|d| d.borrow_mut().push((log, sch)));
+}
+
+impl<S: Scheduler> Scheduler for Rec<S> {
+    fn new_execution(&mut self) -> Option<Schedule> {
+        if self.started {
+            snapshot_iteration();
+        }
+        self.started = true;
+        self.inner.new_execution()
+    }
+    fn next_task(&mut self, runnable: &[&Task], current: Option<TaskId>, is_yielding: bool) -> Option<TaskId> {
+        let c = self.inner.next_task(runnable, current, is_yielding);
+        log(format!(
+            "D[{}]c{}y{}>{}",
+            runnable.iter().map(|t| usize::from(t.id()).to_string()).collect::<Vec<_>>().join(","),
+            current.map(|c| usize::from(c).to_string()).unwrap_or("-".into()),
+            is_yielding as u8,
+            c.map(|c| usize::from(c).to_string()).unwrap_or("x".into())
+        ));
+        c
+    }
+    fn next_u64(&mut self) -> u64 {
+        let v = self.inner.next_u64();
+        log(format!("R{}", v));
+        v
+    }
+}
+
+fn run_recorded<S: Scheduler + 'static>(sched: S, config: Config, prog: Arc<Prog>) -> (Vec<(String, Schedule)>, Option<String>) {
+    LOG.with(|l| l.borrow_mut().clear());
+    ITER_DATA.with(|d| d.borrow_mut().clear());
+    let rec = Rec { inner: sched, started: false };
+    let p2 = prog.clone();
+    let res = catch_unwind(AssertUnwindSafe(|| {
+        Runner::new(rec, config).run(move || {
+            let objs = Arc::new(make_objs(&p2.obj_specs));
+            run_body(p2.clone(), objs, 0);
+        })
+    }));
+    let fail = match res {
+        Ok(_) => None,
+        Err(p) => {
+            let c = classify(p);
+            // a panic raised between executions (e.g. PCT's "did not exercise any concurrency" assertion in
+            // new_execution) belongs to no execution: nothing to snapshot, nothing to replay
+            if LOG.with(|l| l.borrow().is_empty()) {
+                return (ITER_DATA.with(|d| d.borrow().clone()), Some(format!("outside-execution:{}", c)));
+            }
+            snapshot_iteration();
+            Some(c)
+        }
+    };
+    (ITER_DATA.with(|d| d.borrow().clone()), fail)
+}
+
+/// replay <kind> <seed> <param> <iters> <ms> <objs> <bodies>
+/// Runs the program under a real built-in scheduler, then replays every execution from its recorded
+/// schedule (through the printed string form) and compares the two logs event by event.
+pub fn run_replay(words: &[&str]) -> String {
+    let [_, kind, seed, param, iters, ms, objs, bodies] = words else {
+        return "ERR bad case".to_string();
+    };
+    let Some(config) = parse_config(ms) else { return "ERR bad max_steps".to_string() };
+    let seed: u64 = seed.parse().unwrap();
+    let param: usize = param.parse().unwrap();
+    let iters: usize = iters.parse().unwrap();
+    let prog = parse_prog(objs, bodies);
+    let (data, fail) = match *kind {
+        "random" => run_recorded(shuttle_schedulers::RandomScheduler::new_from_seed(seed, iters), config.clone(), prog.clone()),
+        "pct" => run_recorded(shuttle_schedulers::PctScheduler::new_from_seed(seed, param.max(1), iters), config.clone(), prog.clone()),
+        "dfs" => run_recorded(shuttle_schedulers::DfsScheduler::new(Some(iters), true), config.clone(), prog.clone()),
+        "rr" => run_recorded(shuttle_schedulers::RoundRobinScheduler::new(iters), config.clone(), prog.clone()),
+        "urw" => run_recorded(shuttle_schedulers::UrwRandomScheduler::new_from_seed(seed, iters), config.clone(), prog.clone()),
+        _ => return "ERR bad scheduler".to_string(),
+    };
+    let n = data.len();
+    let mut out = format!("N={} F={}", n, fail.clone().unwrap_or("-".into()));
+    for (i, (log_a, sch)) in data.iter().enumerate() {
+        let text = shuttle_engine::scheduler::serialization::serialize_schedule(sch);
+        let expect_fail = if i + 1 == n && !fail.as_deref().unwrap_or("").starts_with("outside-execution") {
+            fail.clone()
+        } else {
+            None
+        };
+        let (rdata, rfail) = {
+            let text2 = text.clone();
+            let r = catch_unwind(AssertUnwindSafe(|| shuttle_schedulers::ReplayScheduler::new_from_encoded(&text2)));
+            match r {
+                Ok(rs) => run_recorded(rs, config.clone(), prog.clone()),
+                Err(_) => (vec![], Some("replay-constructor-panicked".to_string())),
+            }
+        };
+        let log_b = rdata.first().map(|x| x.0.clone()).unwrap_or_default();
+        if log_a != &log_b || rfail != expect_fail {
+            let a: Vec<&str> = log_a.split(' ').collect();
+            let b: Vec<&str> = log_b.split(' ').collect();
+            let pos = a.iter().zip(b.iter()).position(|(x, y)| x != y).unwrap_or(a.len().min(b.len()));
+            out.push_str(&format!(
+                " DIFF iter={} pos={} orig={} replay={} origT={} replayT={} schedule={}",
+                i,
+                pos,
+                a.get(pos).unwrap_or(&"<end>"),
+                b.get(pos).unwrap_or(&"<end>"),
+                expect_fail.unwrap_or("-".into()),
+                rfail.unwrap_or("-".into()),
+                text.replace('\n', "|")
+            ));
+            return out;
+        }
+    }
+    out.push_str(" ALLEQ");
+    out
+}
+
+/// nondet <seed> <iters> <ms> <objs> <bodies>: the uncontrolled-nondeterminism checker must accept the program
+pub fn run_nondet(words: &[&str]) -> String {
+    let [_, seed, iters, ms, objs, bodies] = words else {
+        return "ERR bad case".to_string();
+    };
+    let Some(config) = parse_config(ms) else { return "ERR bad max_steps".to_string() };
+    let prog = parse_prog(objs, bodies);
+    let sched = shuttle_schedulers::UncontrolledNondeterminismCheckScheduler::new(shuttle_schedulers::RandomScheduler::new_from_seed(
+        seed.parse().unwrap(),
+        iters.parse().unwrap(),
+    ));
+    LOG.with(|l| l.borrow_mut().clear());
+    let p2 = prog.clone();
+    let res = catch_unwind(AssertUnwindSafe(|| {
+        Runner::new(sched, config).run(move || {
+            let objs = Arc::new(make_objs(&p2.obj_specs));
+            run_body(p2.clone(), objs, 0);
+        })
+    }));
+    match res {
+        Ok(n) => format!("ND ok {}", n),
+        Err(p) => {
+            let msg = if let Some(s) = p.downcast_ref::<String>() {
+                s.clone()
+            } else if let Some(s) = p.downcast_ref::<&str>() {
+                s.to_string()
+            } else {
+                "<payload>".to_string()
+            };
+            if msg.contains("nondeterminism") || msg.contains("non-determinism") {
+                format!("ND rejected {}", msg.replace([' ', '\n'], "_").chars().take(160).collect::<String>())
+            } else {
+                format!("ND failed-otherwise {}", msg.replace([' ', '\n'], "_").chars().take(80).collect::<String>())
+            }
+        }
+    }
+}
+
 pub fn run(words: &[&str]) -> String {
     if words.first() == Some(&"progdfs") {
         return run_dfs(words);
+    }
+    if words.first() == Some(&"replay") {
+        return run_replay(words);
+    }
+    if words.first() == Some(&"nondet") {
+        return run_nondet(words);
     }
     let [_, ms, script, rseed, objs, bodies] = words else {
         return "ERR bad case".to_string();
